@@ -563,5 +563,12 @@ def unit_gym(S):
                 what="observation / reward / terminal / truncate are the stored fields of the successor state")
 
 
+def _lerax_to_gym(S):
+    """the LeraxToGymEnv adapter (contract stated in C01: step / reset delegate to env.step / env.reset on (state, key), seeded resets determine the episode, no hidden state):
+    together with C01's step contract this is 'the adapter reproduces the trajectory of the environment it adapts'"""
+    from contracts import C01
+    C01.unit_gym_adapter(S)
+
+
 UNITS = [("constructible", unit_constructible)] + [(f"pass:{n}", unit_passthrough(n)) for n in WRAPPERS] + \
-        [("rescale", unit_rescale), ("timelimit", unit_timelimit), ("gymnax", unit_gymnax), ("gym", unit_gym)]
+        [("rescale", unit_rescale), ("timelimit", unit_timelimit), ("gymnax", unit_gymnax), ("gym", unit_gym), ("lerax-to-gym", _lerax_to_gym)]
